@@ -91,7 +91,21 @@ def check_pred(rep, ix):
     ax = ix.get_func(M, '_add_x_axis_to_channels_to_write')
     s = ax.args.args[1].arg
     ifs = [n for n in walk_no_nested(ax) if isinstance(n, ast.If)]
-    ok = len(ifs) == 1 and show(nf(ifs[0].test)) == common.nfs(f'len({s}) != 0') and [_n(x) for x in ifs[0].body] == [f'{s}.add({ax.args.args[0].arg}.x_axis.ident)'] and not ifs[0].orelse
+    fa_ = ax.args.args[0].arg
+    inplace = len(ifs) == 1 and show(nf(ifs[0].test)) == common.nfs(f'len({s}) != 0') and [_n(x) for x in ifs[0].body] == [f'{s}.add({fa_}.x_axis.ident)'] and not ifs[0].orelse
+    # the form that leaves the caller's set alone (fix 2f2fa17): non-empty -> return set(s) | {x}; empty -> return s
+    functional = len(ifs) == 1 and show(nf(ifs[0].test)) == common.nfs(f'len({s}) != 0') and not ifs[0].orelse \
+        and [_n(x) for x in ifs[0].body] in ([f'returnset({s})|{{{fa_}.x_axis.ident}}'], [f'return{s}|{{{fa_}.x_axis.ident}}']) \
+        and [_n(x) for x in ax.body if not (isinstance(x, ast.Expr) and isinstance(x.value, ast.Constant))][-1:] == [f'return{s}'] \
+        and not common.mutations_of(ax, s)
+    ok = inplace or functional
+    if functional:
+        # the callers must use the returned set: `subset = _add_x_axis_to_channels_to_write(frame_array, subset)` before the loop
+        for fn, (p_, xa_) in sorted(got.items()):
+            f_ = ix.get_func(M, fn)
+            calls_ = [n for n in walk_no_nested(f_) if isinstance(n, ast.Call) and _n(n.func) == '_add_x_axis_to_channels_to_write']
+            bound = all(isinstance(getattr(c, '_parent', None), ast.Assign) and len(c._parent.targets) == 1 and _n(c._parent.targets[0]) == _n(c.args[1]) for c in calls_)
+            rep.ob('R-C10-PRED', f'{M}:{fn}', 'the set returned by _add_x_axis_to_channels_to_write replaces the subset the loop tests', bound, node=f_, module=m)
     rep.ob('R-C10-PRED', f'{M}:_add_x_axis_to_channels_to_write', 'a non-empty subset always gains the first channel; an empty subset (all channels) stays empty', ok, node=ax, module=m)
     st = ix.get_func(M, '_stringify')
     rets = sorted(_n(r.value) for r in common.returns_of(st))
